@@ -414,6 +414,13 @@ func execInt[T typ.Integer](c *core.Ctx, cs Case, t tinfo) {
 	}
 	call := func(tup []int64) *big.Int {
 		a := conv(tup)
+		defer func() { // the variadic slice handed to the function must come back unmodified
+			for i, b := range tup {
+				if a[i] != T(b) {
+					panic("arguments modified by " + cs.Fn)
+				}
+			}
+		}()
 		switch cs.Fn {
 		case "Min":
 			return bigOf(typ.Min(a...), t.signed)
